@@ -134,6 +134,39 @@ func WithGaps(t *rapid.T, b Bars) Bars {
 	return c
 }
 
+// Narrow returns a copy of the bars in which about a third of the rows have a range of one to
+// three units in the last place of the price (a tick the size of the float spacing: what an
+// illiquid or extremely high quote looks like), closing at the low, the high or in between. The
+// bars stay Valid; ratios of differences of such bars are exact in floating point only if they
+// are formed as differences first.
+func Narrow(t *rapid.T, b Bars) Bars {
+	cp := func(xs []float64) []float64 { return append([]float64{}, xs...) }
+	c := Bars{Class: b.Class + "+narrow", Exp: b.Exp, Open: cp(b.Open), High: cp(b.High), Low: cp(b.Low), Close: cp(b.Close), Volume: cp(b.Volume), X: cp(b.X), Y: cp(b.Y)}
+	for i := range c.Close {
+		if rapid.IntRange(0, 2).Draw(t, "narrow") != 1 {
+			continue
+		}
+		lo := c.Low[i]*1.0000001 + 0.1 // off the dyadic grid
+		hi := lo
+		for k, m := 0, rapid.IntRange(1, 3).Draw(t, "ulps"); k < m; k++ {
+			hi = math.Nextafter(hi, math.Inf(1))
+		}
+		c.Low[i], c.High[i] = lo, hi
+		switch rapid.IntRange(0, 2).Draw(t, "close_at") {
+		case 0:
+			c.Close[i], c.Open[i] = lo, hi
+		case 1:
+			c.Close[i], c.Open[i] = hi, lo
+		default:
+			c.Close[i], c.Open[i] = math.Nextafter(lo, math.Inf(1)), lo
+			if c.Close[i] > hi {
+				c.Close[i] = hi
+			}
+		}
+	}
+	return c
+}
+
 // Unordered returns a copy of the bars whose columns no longer respect low <= open, close <= high
 // on about a third of the rows (high and low swapped, the close pushed outside the range): the
 // indicators take plain numeric channels, and their documented formulas are defined for any
